@@ -41,6 +41,8 @@ class Exec:
         w = self.world
         k = item[0]
         performed = True
+        if k in ("S", "Q", "E") and w.cs is None:
+            return False                      # the engine is down
         if k == "S":
             out = w.step(item[1])
             self.n_steps += 1
@@ -70,6 +72,13 @@ class Exec:
             w.log.append(("Q", r))
         elif k == "E":
             w.ctl.event_take[item[1]] = item[2]
+        elif k == "R":
+            if item[1] == "down":
+                performed = w.down(graceful=(len(item) < 3 or item[2] != "kill"))
+            else:
+                performed = w.up(item[2] if len(item) > 2 else "intact")
+            if performed:
+                w.log.append(("R",) + tuple(item[1:]))
         elif k == "X":
             performed = self.actions[item[1]](self, *item[2:])
             if performed is None:
@@ -89,6 +98,8 @@ class Exec:
 
     def epilogue(self, cap=600):
         """faults off, run round-robin to quiet"""
+        if self.world.cs is None:
+            self.world.up("intact")
         r = self.world.quiesce(cap=cap)
         if r is None:
             self.nonquiescent = True
@@ -213,7 +224,9 @@ def canon_user_ops(plan):
             _, side, op, *a = it
             paths = [ab(x) for x in a if isinstance(x, str) and x.startswith("/")]
             sig.append("%d:%s(%s)" % (side, op, ",".join(paths)))
-        elif it[0] in ("R", "X"):
+        elif it[0] == "R":
+            sig.append("R:" + ":".join(str(x) for x in it[1:]))
+        elif it[0] == "X":
             sig.append("%s:%s" % (it[0], it[1]))
     return " ".join(sig)
 
